@@ -336,7 +336,7 @@ SPELL = {
     "UNK": ["<foo>", "<1>"], "EUNK": ["</foo>", "</1>"],
     "MT": ["{{t}}", "{{d|x}}", "{{PAGENAME}}"], "MTN": ["{{t\n|a}}", "{{d|\nx\n}}"], "MA": ["{{{1}}}", "{{{1|d}}}"],
     "ML": ["[[L]]", "[[L|x y]]", "[[File:f.png|thumb|c]]"], "ME": ["[http://x.org w]", "[https://x.org/p?q w v]"],
-    "MN": ["<nowiki>x</nowiki>", "<nowiki>''=*|</nowiki>"], "MW": ["__NOTOC__", "__TOC__"],
+    "MN": ["<nowiki>x</nowiki>", "<nowiki>''=*|</nowiki>"], "MNE": ["<nowiki></nowiki>", "<NoWiki></NoWiki>"], "MW": ["__NOTOC__", "__TOC__"],
     "URL": ["http://x.org", "https://x.org/p"],
 }
 
